@@ -512,18 +512,20 @@ theorem mixed_sign_not_monotone :
 /-- `DRange.dtBump` refines the C09 model: for a tenor written as tokens `ks` (sign, digits, unit letter) standing
 for the parts, from any instant `t ≥ 0` (0001-01-01 or later), whenever `Bump.bumpCs` — the tokenizer loop of
 `dt_bump` — returns a value, that value is `dtBump parts t`; and for a single part it returns a value exactly when
-`dtBump` lands in the representable range `[0, MAXUS)` -/
+`dtBump` lands in the representable range `[0, MAXUS)` (for a business-day part: when the three datetimes the code
+constructs on the way are representable too - it raises OverflowError otherwise, `Pyg.Props.C09.b_intermediate_overflow`) -/
 theorem dtbump_is_c09 (ks : List Bump.Tok) (wf : ∀ k ∈ ks, k.WF) (parts : List (Int × Per)) (hks : TokParts ks parts)
     (t : Int) (ht : 0 ≤ t) :
     (∀ t', Bump.bumpCs (ks.flatMap Bump.Tok.text) t = .ok t' → t' = dtBump parts t) ∧
     (∀ k n u, ks = [k] → parts = [(n, u)] → 0 ≤ dtBump parts t → dtBump parts t < Bump.MAXUS →
+      (u = Per.b → ∀ j ∈ Gen.bOffPath (Bump.wdOf t) n, Bump.InRange (t + j * Bump.DAYUS)) →
       Bump.bumpCs (ks.flatMap Bump.Tok.text) t = .ok (dtBump parts t)) := by
   rw [Pyg.Props.C09.tenor_left_to_right ks wf t]
   refine ⟨fun t' h => runToks_refines ks parts hks t t' ht h, ?_⟩
-  intro k n u hk hp h0 h1
+  intro k n u hk hp h0 h1 hb
   subst hk; subst hp
   simp only [TokParts, and_true] at hks
-  exact runToks_single_defined k n u hks t ht h0 h1
+  exact runToks_single_defined k n u hks t ht h0 h1 hb
 
 /-- **single periods enumerate `t0, dt_bump(t0), dt_bump(dt_bump(t0)), …` with the C09 model's `dt_bump`**:
 for the token `k` = `<n><unit>` (n > 0, unit ≠ b) and `0 ≤ t0 < t1 < MAXUS` (both endpoints representable), month-based
@@ -558,7 +560,7 @@ theorem single_eq_iter_dtbump (k : Bump.Tok) (wf : k.WF) (n : Int) (u : Per) (hk
       iter_succ_outer _ i t0
     rw [hyy] at hy1 ⊢
     have hlt := hinc (iter (dtBump [(n, u)]) i t0)
-    exact (hc09 _ (by omega)).2 k n u rfl rfl (by omega) (by omega)
+    exact (hc09 _ (by omega)).2 k n u rfl rfl (by omega) (by omega) (fun hb => absurd hb hu)
   · intro x hx y hy
     have hlen : l ≠ [] := by intro e; subst e; simp at hx
     have hpos : 0 < l.length := by cases l with | nil => exact absurd rfl hlen | cons _ _ => simp
